@@ -445,6 +445,35 @@ let handle (line : string) : string =
                num_rook_threats = g "num_rook_threats"; num_bishop_threats = g "num_bishop_threats" } in
     let sr r = match r with NoGames -> "None" | Raised -> "Raised" | Score x -> dec_of_z x.qnum ^ "/" ^ dec_of_pos x.qden in
     Printf.sprintf "valid=%s agg=%s pos=%s pp=%s" (b01 (Model.is_valid st)) (sr (aggression_score st)) (sr (positional_score st)) (sr (pawn_pusher_score st))
+  | "stylegame" ->
+    (* stylegame <w|b> <R:tok tok ...|R:...>: analyse_games of model/StyleGame.v; R = W (1-0), B (0-1), D (1/2-1/2); moves as in playout *)
+    let side = f.(1) = "b" in
+    let games = if Array.length f < 3 || f.(2) = "" then [] else
+      List.map (fun g ->
+        let hd = match g.[0] with 'W' -> WhiteWins | 'B' -> BlackWins | _ -> DrawnGame in
+        let rest = String.sub g 2 (String.length g - 2) in
+        let toks = List.filter (fun t -> t <> "") (String.split_on_char ' ' rest) in
+        (hd, List.map mv_of_string toks)) (String.split_on_char '|' f.(2)) in
+    let st = analyse_games side games in
+    let qs (x : q) = if x.qden = XH then dec_of_z x.qnum else dec_of_z x.qnum ^ "/" ^ dec_of_pos x.qden in
+    let ql l = String.concat "," (List.map qs l) in
+    let sr r = match r with NoGames -> "None" | Raised -> "Raised" | Score x -> dec_of_z x.qnum ^ "/" ^ dec_of_pos x.qden in
+    String.concat ";" [
+      "num_wins=" ^ qs st.num_wins; "num_draws=" ^ qs st.num_draws; "num_losses=" ^ qs st.num_losses; "num_games=" ^ qs st.num_games;
+      "castle_same=" ^ qs st.castle_same; "castle_opposite=" ^ qs st.castle_opposite;
+      "total_captures=" ^ qs st.total_captures; "total_noncaptures=" ^ qs st.total_noncaptures; "total_moves=" ^ qs st.total_moves;
+      "checks=" ^ qs st.checks; "nonchecks=" ^ qs st.nonchecks;
+      "early_captures=" ^ qs st.early_captures; "mid_captures=" ^ qs st.mid_captures; "late_captures=" ^ qs st.late_captures;
+      "extreme_captures=" ^ qs st.extreme_captures;
+      "capture_distance=" ^ ql st.capture_distance; "noncapture_distance=" ^ ql st.noncapture_distance;
+      "game_length=" ^ String.concat "," (List.map (fun (a, b) -> qs a ^ ":" ^ qs b) st.game_length);
+      "short_games=" ^ qs st.short_games; "medium_games=" ^ qs st.medium_games; "long_games=" ^ qs st.long_games;
+      "extreme_games=" ^ qs st.extreme_games;
+      "num_win_ahead=" ^ qs st.num_win_ahead; "num_win_equal=" ^ qs st.num_win_equal; "num_win_behind=" ^ qs st.num_win_behind;
+      "early_pawn_pushes=" ^ ql st.early_pawn_pushes; "mid_pawn_pushes=" ^ ql st.mid_pawn_pushes; "late_pawn_pushes=" ^ ql st.late_pawn_pushes;
+      "total_pawn_pushes=" ^ qs st.total_pawn_pushes; "total_pawn_pushes_towards_king=" ^ qs st.total_pawn_pushes_towards_king;
+      "num_rook_threats=" ^ qs st.num_rook_threats; "num_bishop_threats=" ^ qs st.num_bishop_threats;
+      "valid=" ^ b01 (Model.is_valid st); "agg=" ^ sr (aggression_score st); "pos=" ^ sr (positional_score st); "pp=" ^ sr (pawn_pusher_score st) ]
   | "valid" ->
     (match set_fen false false (str_of_string f.(1)) with Some _ -> "1" | None -> "0")
   | c -> failwith ("unknown command " ^ c)
